@@ -23,7 +23,7 @@ structure Frame where
   spec : Str
   target : Str
   tid : Nat                       -- identity of the target object
-  tlen : Option Nat               -- len(target), if it has one
+  tlen : Option Nat               -- len(target); none: it has no __len__, or __len__ / len() raised (any Exception)
   slen : Option Nat := none       -- len(spec), if it has one
   up : Nat                        -- the frame it is a child of (index; 0 = glom()'s root scope)
   lastChild : Option Nat := none
@@ -134,7 +134,9 @@ def natStr (n : Nat) : Str := (toString n).toList
 def pySliceTo (s : Str) (k : Int) : Str :=
   if k ≥ 0 then s.take k.toNat else s.take (s.length - (-k).toNat)
 
-/-- `_format_trace_value` on an already computed `bbrepr` string -/
+/-- `_format_trace_value` on an already computed `bbrepr` string; `vlen = none`: `len(value)` raised (the
+    `except Exception` around it covers every exception class: TypeError of an object without `__len__`,
+    OverflowError / ValueError of `len()` itself, anything a user `__len__` raises) -/
 def formatValue (s : Str) (vlen : Option Nat) (maxlen : Int) : Str :=
   if (s.length : Int) > maxlen then
     let suffix : Str := match vlen with
